@@ -1,3 +1,4 @@
+import Bandit.Lines
 import Bandit.Proofs.Loc
 import Bandit.Proofs.Nosec
 import Bandit.Format
@@ -453,6 +454,27 @@ theorem b613_insert_shifts (table : List Char) (pre ins post : List Str)
       | some r => some r
       | none => (Plugins.scanBidi table (1 + pre.length) post).map (fun r => (r.1 + ins.length, r.2)) :=
   scanBidi_insert table 1 pre ins post hclean
+
+/-- … and at the level of the *text*: inserting an empty line after any line end of the decoded text inserts exactly the line `"\n"` there
+(`uniLines_insert_blank`), so a B613 finding above the insertion stays and one below moves down by one — whatever mixture of `\n`, `\r\n`, `\r`
+the text uses before and after -/
+theorem b613_blank_line_in_text_shifts (table : List Char) (a b : LStr) (hn : '\n' ∉ table) :
+    Plugins.scanBidi table 1 (uniLines ((a ++ ['\n']) ++ '\n' :: b)) =
+      match Plugins.scanBidi table 1 (uniLines (a ++ ['\n'])) with
+      | some r => some r
+      | none => (Plugins.scanBidi table (1 + (uniLines (a ++ ['\n'])).length) (uniLines b)).map (fun r => (r.1 + 1, r.2)) := by
+  rw [(uniLines_insert_blank a b).1]
+  have := b613_insert_shifts table (uniLines (a ++ ['\n'])) [['\n']] (uniLines b) (by
+    intro l hl
+    simp only [List.mem_singleton] at hl
+    subst hl
+    unfold Plugins.firstTableChar
+    rw [List.findSome?_eq_none_iff]
+    intro ch hch
+    have hne : ch ≠ '\n' := fun e => hn (e ▸ hch)
+    have : ['\n'].idxOf? ch = none := by rw [List.idxOf?_eq_none_iff]; simpa using hne
+    simp [this])
+  simpa using this
 
 /-- `x = 1` on line 1 (not in the tree below), a blank line 2, `exec(\n  code)` on lines 3–4 -/
 def exTree : Node :=
